@@ -25,6 +25,7 @@ struct Cmd {
   bool safeInterrupt = true;
   bool allowMissing = false;
   bool allowModified = false;        // allow-modified-outputs
+  bool strictExtra = false;          // (tool semantics, not a build-system attribute) the tool fails when a file it reads without declaring it is absent
   std::string signature;             // explicit signature ("" = computed)
   std::string contents;              // symlink tool
   std::vector<std::string> expected, roots;   // stale-file-removal
